@@ -33,7 +33,7 @@ def main():
     ap.add_argument('--skip-scratch', action='store_true')
     a = ap.parse_args()
     prop, k = a.prop.upper(), a.k
-    src = '/tmp/mut_out/%s' % prop
+    src = (os.environ.get('SEED_SRC') or '/tmp/mut_out') + '/%s' % prop
     wt = os.environ.get('SEED_WT') or '/tmp/mut/%s' % prop
     patch = os.path.join(src, 'patch%s.diff' % k)
     demo = os.path.join(src, 'demo%s.py' % k)
@@ -85,7 +85,7 @@ def main():
     meta['checks'] = results
     meta['detected_by'] = sorted(c for c, r in results.items() if r['exit'] == 1)
     if a.keep:
-        d = '/verif/seeded/%s-%s' % (prop, k)
+        d = '/verif/seeded/%s-%s%s' % (prop, os.environ.get('SEED_TAG', ''), k)
         os.makedirs(d, exist_ok=True)
         shutil.copy(patch, os.path.join(d, 'patch.diff'))
         shutil.copy(demo, os.path.join(d, 'demo.py'))
